@@ -871,6 +871,9 @@ def dump_cases(draw):
             'units': units, 'fmt': fmt, 'prop_name': explicit, 'sink': 'io' if (bits & 12) == 12 else 'str'}
     add_decades(case, dec)
     finish_case(case, rng, narrow_pos=True)
+    if case['form'] == 'narrow' and explicit is None and rng.integers(0, 2):
+        # all columns, named explicitly in another order than they are stored in
+        case['prop_name'] = ['atom_id', 'atype', 'pos'] + [p for p in props if p != 'atom_id'][::-1]
     case['wu'] = draw(_WU)
     return case
 
